@@ -27,13 +27,21 @@ def rule(fn, kind, expr, ordn, guards, contract):
             if c not in g:
                 raise SystemExit('guard %r expected at %s %s %s#%d, have %r' % (c, fn, kind, expr, ordn, guards))
         return list(cs)
+    if kind == 'nilderef':
+        v = expr.split('.')[0].lstrip('*')
+        need('!(%s == nil)' % v)
+        return '.nilChecked %s' % q(v)
+    if kind == 'call' and expr.startswith('resource.ParseQuantity('):
+        arg = expr[len('resource.ParseQuantity('):-1]
+        need('!(exponentTooLarge(%s))' % arg)
+        return '.guardedArg "resource.ParseQuantity" "exponentTooLarge" %s "quantity_arg_guarded"' % q(arg)
     # ---------------- cron ----------------
     if fn == 'cron.NewParser' and kind == 'panic':
         return '.documentedMisuse "NewParser with two optional fields (documented: It panics if more than one Optional is given)"'
     if fn == 'cron.Parser.Parse':
         if kind == 'slice':
             return thm('C04Parser', 'Kit.Cron.parse_never_panics', need('!(i == -1)'))
-        return thm('C04Parser', 'Kit.Cron.parse_never_panics', need('!(err != nil)'))
+        return thm('C04Parser', 'Kit.Cron.parse_never_panics', need('!(strings.HasPrefix(spec, "@"))'))
     if fn == 'cron.normalizeFields':
         if expr.startswith('defaults['):
             return '.constIndex "defaults is a package-level literal of 6 strings"'
